@@ -126,6 +126,31 @@ def run(rep):
     rep.check(ok, "C02-R7", cr.def_, "removed-entry-is-answered", "once the pending entry was removed every path must forward the reply, except when the call was aborted (answered then) or the caller is gone", line=cr.span,
               detail={"cut_edges": len(cut)})
 
+    # the caller's AbortFunctionCall: once the pending call is known (Some edge of conn.call_data(req.serial)) the abort is queued on every path
+    af = M["abort_function_call"]
+    pa = [c for c in af.calls if c.name == "push_abort_function_call"]
+    known = af.edges_matching([r"^Some=discr\(ConnectionState::call_data\(self\.conns\[id\]\.0, req\.serial\)\)$"])
+    ok = len(pa) == 1 and len(known) == 1
+    if ok:
+        (_u, v) = list(known)[0]
+        ok = not (set(af.exits()) & af.reachable(v, without_nodes={pa[0].bb}))
+        ok = ok and all(re.match(r"^ConnectionState::call_data\(self\.conns\[id\]\.0, req\.serial\)\.0\.0$", d) for d in af.describe(pa[0].args[1]))
+    rep.check(ok, "C02-R7", af.def_, "abort-request-always-queued", "an AbortFunctionCall for a pending call of the requester must be queued on every path (the queued abort is what marks the call aborted and answers the caller with Aborted, whatever the callee's version)",
+              line=af.span, detail={"sites": len(pa), "known_edges": len(known)})
+
+    # ... and every queued abort is executed with the queued (serial, callee) pair
+    plr = M["process_loop_result"]
+    popped = plr.edges_matching([r"^Some=discr\(State::pop_abort_function_call\(state\)\)$"])
+    ac = [c for c in plr.calls if c.name == "abort_call"]
+    pops = [c.bb for c in plr.calls if c.name.startswith("pop_")]
+    ok = len(popped) == 1 and len(ac) == 1
+    if ok:
+        (_u, v) = list(popped)[0]
+        r_ = plr.reachable(v, without_nodes={ac[0].bb})
+        ok = not (set(pops) & r_) and not (set(plr.exits()) & r_) \
+            and all(re.match(r"^State::pop_abort_function_call\(state\)\.0\.0$", d) for d in plr.describe(ac[0].args[2])) and all(re.match(r"^State::pop_abort_function_call\(state\)\.0\.1$", d) for d in plr.describe(ac[0].args[3]))
+    rep.check(ok, "C02-R7", plr.def_, "queued-abort-executed", "every abort popped from the queue must be executed (abort_call) with the queued serial and callee before anything else is popped", detail={"sites": len(ac)})
+
     rs = M["remove_service"]
     pushes = [c for c in rs.calls if c.name == "push_remove_function_call"]
     rrm = [c for c in rs.calls if c.name == "remove" and any_match(rs.describe(c.args[0]), r"^self\.function_calls$")]
